@@ -20,6 +20,13 @@ theorem condition_roundtrip (c : Cond) : Cond.fromJ c.toJ = some c := Cond.round
 /-- a search space with a values assignment comes back with every entry, in order, and every value (typed) -/
 theorem space_roundtrip (s : Space) : Space.fromJ s.toJ = some s := Space.roundtrip s
 
+/-- "equal in every observable respect": whatever is computed from the reloaded search space — the activity of a name, membership, a
+lookup, the completed values — equals what is computed from the original, because the reloaded VALUE is the original. (The
+implementation also keeps tables derived from the entries, e.g. the entries per name; that `from_config` rebuilds them correctly is what
+the by-name monitors of the `codec` suite check — the seeded change C15-G broke exactly that.) -/
+theorem every_observation_survives {β : Type} (f : Space → β) (s : Space) : (Space.fromJ s.toJ).map f = some (f s) := by
+  rw [Space.roundtrip]; rfl
+
 /-- copying a search space (`from_config ∘ get_config`) yields an equal value; as a value it shares nothing
 with the original -/
 theorem copy_is_equal (s : Space) : s.copy = some s := Space.copy_eq s
